@@ -15,10 +15,10 @@ import vf
 SAN = {"getCommitConsensus": "getCommitConsensus", "getCommitConsensus/spread": "getCommitConsensusSpread",
        "commitDone/sigs": "commitDoneSigs", "commitDone/msgs": "commitDoneMsgs", "endorseDone": "endorseDone",
        "CheckSubmitBlock": "CheckSubmitBlock", "VerifyBlock": "VerifyBlock", "AddressFromBookkeepers": "AddressFromBookkeepers",
-       "verifyHeader": "verifyHeader", "verifyHeaderListed": "verifyHeaderListed"}
+       "verifyHeader": "verifyHeader", "verifyHeaderListed": "verifyHeaderListed", "verifyHeaderDbft": "verifyHeaderDbft"}
 FNS = list(SAN.values())
 DECISION = ["getCommitConsensus", "getCommitConsensusSpread", "commitDoneSigs", "commitDoneMsgs", "CheckSubmitBlock",
-            "VerifyBlock", "AddressFromBookkeepers", "verifyHeader"]
+            "VerifyBlock", "AddressFromBookkeepers", "verifyHeader", "verifyHeaderDbft"]
 WITNESS = ["endorseDone"]
 FORMS = [("N-(N-1)/3", lambda n, c: n - (n - 1) // 3), ("N-6N/7", lambda n, c: n - 6 * n // 7), ("C+1", lambda n, c: c + 1),
          ("max(N-6N/7,C+1)", lambda n, c: max(n - 6 * n // 7, c + 1)), ("N-(N-1)/3-1", lambda n, c: n - (n - 1) // 3 - 1),
@@ -86,6 +86,13 @@ def run(ctx):
                 continue
             for r in vf.read_ndjson(fo):
                 nrows += 1
+                if r["fn"] == "verifyHeaderDbft":
+                    # the non-vbft branch does not depend on C: the row holds for every admissible C of this N
+                    for cc in range(0, (r["n"] - 1) // 3 + 1):
+                        table.setdefault((r["n"], cc), {})["verifyHeaderDbft"] = r["k"]
+                    if r["up"] != 1:
+                        nonmono.append((r["fn"], r["n"], r["c"]))
+                    continue
                 rec = table.setdefault((r["n"], r["c"]), {})
                 if r["fn"] == "verifyHeader":
                     rec["verifyHeader"] = r["v"]        # valid signatures really needed
